@@ -99,7 +99,8 @@ def c10_document(E, with_groups=("none", "reactions+metabolites", "reactions+met
     try:
         m = base_model(E, groups=False)
         r1 = m.reactions.R1
-        kind = E.pick("bounds_kind", ["finite", "ub=+inf", "lb=-inf", "both-inf", "ub=0", "lb=default-lb", "ub=default-ub"])
+        kind = E.pick("bounds_kind", ["finite", "ub=+inf", "lb=-inf", "both-inf", "ub=0", "lb=default-lb", "ub=default-ub",
+                                      "factory-defaults(-1000,1000)"])
         if kind == "ub=+inf":
             r1.bounds = (r1.lower_bound, float("inf"))
         elif kind == "lb=-inf":
@@ -112,6 +113,8 @@ def c10_document(E, with_groups=("none", "reactions+metabolites", "reactions+met
             r1.bounds = (cfgb[0], float("inf"))
         elif kind == "ub=default-ub":
             r1.bounds = (float("-inf"), cfgb[1])
+        elif kind.startswith("factory-defaults"):
+            r1.bounds = (-1000.0, 1000.0)       # the defaults cobrapy ships with, whatever is configured now
         oc = E.real("objective_coefficient_R1", -5, 5)
         m.objective = {m.reactions.DM_B: 1, r1: oc}
         direction = E.pick("direction", ["max", "min"])
